@@ -273,6 +273,7 @@ const (
 	ProfEmpty                 // pointers set, collections empty (non-nil)
 	ProfRandom                // mixture, nil elements included
 	ProfSparse                // mostly nil/empty with a few populated parts
+	ProfEmptyNoPtr            // pointers nil, collections empty (non-nil)
 )
 
 // Gen generates type-directed values. Scalars come from a running counter so that distinct
@@ -409,7 +410,7 @@ func (g *Gen) fill(v reflect.Value, depth int) {
 	t := v.Type()
 	switch t.Kind() {
 	case reflect.Ptr:
-		if g.wantNil() || depth > 8 {
+		if g.wantNil() || depth > 8 || g.Prof == ProfEmptyNoPtr {
 			return
 		}
 		p := reflect.New(t.Elem())
@@ -428,7 +429,7 @@ func (g *Gen) fill(v reflect.Value, depth int) {
 		}
 		if isByteSlice(t) {
 			n := 0
-			if g.Prof != ProfEmpty {
+			if g.Prof != ProfEmpty && g.Prof != ProfEmptyNoPtr {
 				n = 1 + g.R.Intn(6)
 			}
 			if g.Prof == ProfRandom && g.R.Chance(1, 6) {
